@@ -82,8 +82,21 @@ type c20Event struct {
 	flag bool // finalized (start) / strict (update)
 	self int
 	ext  int
+	tsm  int // start only: candidate timestamp relative to the closing round (c20TsNames)
 	name string
 }
+
+// timestamp of a round start: the stamp of the first snapshot of the next
+// round (what an honest proposer uses), or a stamp placed around the END of
+// the round being closed (its last snapshot): 1 ns before, equal, 1 ns after.
+const (
+	c20TsNext = iota
+	c20TsEndMinus1
+	c20TsEnd
+	c20TsEndPlus1
+)
+
+var c20TsNames = []string{"next-round", "final.End-1", "final.End", "final.End+1"}
 
 var c20Events []c20Event
 
@@ -97,6 +110,16 @@ func c20BuildEvents() {
 	for s := range c20SelfNames {
 		for x := range c20ExtNames {
 			refs = append(refs, ref{s, x})
+		}
+	}
+	// round starts stamped around the end of the closing round, with valid
+	// forward references, on the strict and on the finalized path
+	for _, flag := range []bool{false, true} {
+		for _, x := range []int{c20ExtB1, c20ExtC1} {
+			for _, tsm := range []int{c20TsEndMinus1, c20TsEnd, c20TsEndPlus1} {
+				c20Events = append(c20Events, c20Event{kind: c20KStart, flag: flag, self: c20SelfCorrect, ext: x, tsm: tsm,
+					name: fmt.Sprintf("start(finalized=%v,self=correct,ext=%s,ts=%s)", flag, c20ExtNames[x], c20TsNames[tsm])})
+			}
 		}
 	}
 	for _, kind := range []int{c20KStart, c20KUpdate} {
@@ -358,7 +381,15 @@ func c20ErrClass(err error) string {
 			return k[1]
 		}
 	}
-	return "other"
+	// a refusal reason this harness has no name for: still subject to the
+	// generic "a refused transition changes nothing" oracle
+	var words []string
+	for _, w := range strings.Fields(s) {
+		if !strings.ContainsAny(w, "0123456789") && len(words) < 7 {
+			words = append(words, w)
+		}
+	}
+	return "other:" + strings.Join(words, "-")
 }
 
 const (
@@ -453,6 +484,12 @@ func (in *c20Inst) apply(c *verifmc.Check, e int, check bool, report c20Reporter
 			refs.Self = fixc.Hash("c20-garbage-self")
 		}
 		ts = c20Time(c20A, cacheCopy.Number+1, 0)
+		if ev.tsm != c20TsNext {
+			if cur == nil {
+				return c20Disabled // no closing round to relate the stamp to ("cache-empty" is covered by the next-round stamps)
+			}
+			ts = cur.End + uint64(ev.tsm-c20TsEnd) // End-1, End, End+1
+		}
 		cache := cacheCopy // cosiSendAnnouncement / checkAnnouncementOrChallenge pass a copy
 		if ev.flag {
 			cache = chain.State.CacheRound // prepareFinalization passes the live round
@@ -526,6 +563,9 @@ func (in *c20Inst) apply(c *verifmc.Check, e int, check bool, report c20Reporter
 		}
 		c.Outcome(o)
 		c.Outcome(fmt.Sprintf("%s(%v)", o, ev.flag))
+		if ev.tsm != c20TsNext {
+			c.Outcome(fmt.Sprintf("%s(%v):ts=%s", o, ev.flag, c20TsNames[ev.tsm]))
+		}
 		if nc.Number != before.cacheNum+1 || after.cacheNum != before.cacheNum+1 || head.Number != before.cacheNum+1 || nf.Number != before.cacheNum || after.final.Number != before.cacheNum {
 			report("accepted:number-not-plus-one", fmt.Sprintf("%s: returned cache %d, state cache %d, stored head %d, final %d/%d; expected %d and %d", input, nc.Number, after.cacheNum, head.Number, nf.Number, after.final.Number, before.cacheNum+1, before.cacheNum))
 		}
@@ -764,7 +804,7 @@ func TestMC_C20(t *testing.T) {
 	if v := os.Getenv("C20_DEPTH"); v != "" {
 		fmt.Sscan(v, &depth)
 	}
-	c.SetRule(fmt.Sprintf("BFS to depth %d over ALL sequences of %d events on a real 7-chain node (newMCNode): the real startNewRoundAndPersist(finalized in {f,t}) and updateEmptyHeadRoundAndPersist(strict in {f,t}) on chain A with references self {correct,stale (an older final hash of A),garbage} x external {B.r0,B.r1,B.r2,C.r1,A's own final round,unknown hash,B's head record key (node id)}, interleaved with A.snap (real AddSnapshot of a real deposit snapshot, <=2 per round), B.adv and C.adv (snapshot into an empty head round / close a non-empty one: newer external rounds become final, then strictly referencable); fixture prefix B.r0,B.r1 final + B head non-empty, C.r0 final + C head non-empty; canonical state = A(head number, snapshots, stored external, final number) + 7 stored links + 7 in-memory links + B,C(head number, snapshots); refused events are verified self-loops and further events are tried on the same instance, every state-changing event is computed on a fresh instance by replaying the history", depth, len(c20Events)))
+	c.SetRule(fmt.Sprintf("BFS to depth %d over ALL sequences of %d events on a real 7-chain node (newMCNode): the real startNewRoundAndPersist(finalized in {f,t}) and updateEmptyHeadRoundAndPersist(strict in {f,t}) on chain A with references self {correct,stale (an older final hash of A),garbage} x external {B.r0,B.r1,B.r2,C.r1,A's own final round,unknown hash,B's head record key (node id)}, + round starts (both paths, self correct, external {B.r1,C.r1}) stamped 1 ns before / at / 1 ns after the END of the round being closed instead of at the next round's first snapshot, interleaved with A.snap (real AddSnapshot of a real deposit snapshot, <=2 per round), B.adv and C.adv (snapshot into an empty head round / close a non-empty one: newer external rounds become final, then strictly referencable); fixture prefix B.r0,B.r1 final + B head non-empty, C.r0 final + C head non-empty; canonical state = A(head number, snapshots, stored external, final number) + 7 stored links + 7 in-memory links + B,C(head number, snapshots); refused events are verified self-loops and further events are tried on the same instance, every state-changing event is computed on a fresh instance by replaying the history", depth, len(c20Events)))
 	c.Assume("Badger transactions are atomic",
 		"snapshots are added at the level the kernel adds them after verifyFinalization (lock+write transaction, ValidateSnapshot, AddSnapshot/TopoWrite); CoSi signatures are not verified by any function under test (Mask=1 placeholder)",
 		"timestamps are a pure function of (chain, round, index): round n of A is stamped later than the start of B.rn/C.rn and earlier than B.r(n+1)/C.r(n+1); real time (2026) is later than every fixture timestamp, so the 'too future' clock test never fires",
@@ -880,6 +920,8 @@ func TestMC_C20(t *testing.T) {
 		"start:reject:cache-empty", "start:reject:self-mismatch", "start(false):reject:external-unknown", "start:reject:external-self", "start:reject:back-link",
 		"update:reject:head-not-empty", "update:reject:self-mismatch", "update:reject:external-unknown", "update:reject:external-self", "update:reject:back-link",
 		"update(true):reject:strict-later-than-round", "update(true):reject:strict-no-extra-final", "start(false):reject:strict-no-extra-final",
+		"start:accept(false):ts=final.End-1", "start:accept(false):ts=final.End", "start:accept(false):ts=final.End+1",
+		"start:accept(true):ts=final.End-1", "start:accept(true):ts=final.End", "start:accept(true):ts=final.End+1",
 	} {
 		c.Require(c.OutcomeCount(o) > 0, "outcome class %q never reached", o)
 	}
